@@ -49,6 +49,7 @@ class FS:
         self.dead = False
         self.where = None
         self.gen = 0
+        self.unbuffered = False      # True: the record exceeds the io buffer, every f.write() is its own write(2) (BufferedWriter semantics)
 
     def tick(self, what):
         if getattr(self, "ctrl", None) is not None:
@@ -83,6 +84,8 @@ class WFile:
 
     def write(self, b):
         self.buf += b
+        if _fs.unbuffered:
+            self.flush()
 
     def flush(self):
         if not self.buf:
@@ -193,7 +196,8 @@ def make_crash_body(lock_cls_name, n_before, n_after):
         old_reader.read_logs(0)                       # a survivor whose offset cache reflects an earlier read
         # the writer that dies
         _fs.calls = 0
-        n_calls = 9 if "Open" in lock_cls_name else 8
+        _fs.unbuffered = bool(sx.choose(2, "record_exceeds_io_buffer"))
+        n_calls = (9 if "Open" in lock_cls_name else 8) + (1 if _fs.unbuffered else 0)
         ca = sx.choose(n_calls, "crash_at_call")
         _fs.crash_at = 1 + ca
         cutinfo = {}
@@ -213,6 +217,7 @@ def make_crash_body(lock_cls_name, n_before, n_after):
             crashed = _fs.where
         _fs.crash_at = None
         _fs.dead = False
+        _fs.unbuffered = False
         sx.note("scenario", dict(lock=lock_cls_name, crashed_during=crashed, write=cutinfo.get("c", "-"), bytes=cutinfo.get("bytes")))
         sx.reach("crashed" if crashed else "not-crashed")
         # survivors: the old reader's backend and a fresh opener keep appending and reading through the REAL code
@@ -257,7 +262,8 @@ def storage_level_body():
     w.set_trial_user_attr(tid, "acknowledged", 1)
     victim_call = sx.choose(["set_trial_user_attr", "set_trial_state_values", "create_new_trial"], "interrupted_call")
     _fs.calls = 0
-    n_calls = 9 if "Open" in lock_cls_name else 8
+    _fs.unbuffered = bool(sx.choose(2, "record_exceeds_io_buffer"))
+    n_calls = (9 if "Open" in lock_cls_name else 8) + (1 if _fs.unbuffered else 0)
     _fs.crash_at = 1 + sx.choose(n_calls, "crash_at_call")
     cutinfo = {}
 
@@ -278,6 +284,7 @@ def storage_level_body():
         crashed = _fs.where
     _fs.crash_at = None
     _fs.dead = False
+    _fs.unbuffered = False
     sx.note("scenario", dict(lock=lock_cls_name, crashed_during=crashed, write=cutinfo.get("c", "-"), call=victim_call))
     sx.reach("crashed" if crashed else "not-crashed")
     try:
